@@ -1017,11 +1017,15 @@ func foldOnlyValidRunes(p *core.Prog, root *ssa.Function) string {
 	establishes := func(cond ssa.Value, sense bool) int {
 		switch x := cond.(type) {
 		case *ssa.BinOp:
-			k := ofDec(x.X)
+			k, other := ofDec(x.X), x.Y
 			if k < 0 {
-				k = ofDec(x.Y)
+				k, other = ofDec(x.Y), x.X
 			}
 			if k < 0 {
+				return -1
+			}
+			// the rune against utf8.RuneError, or the size against 1: nothing else says "lone invalid byte"
+			if c, isK := core.ConstInt(other); !isK || (c != 65533 && c != 1) {
 				return -1
 			}
 			// rune == RuneError / size == 1 being false, or their != being true
